@@ -33,6 +33,8 @@ func c17(c *Ctx) {
 	c17decoderModel(c)
 	c17positional(c)
 	c17fold(c)
+	c17mapEntries(c)
+	c17mapFieldInfo(c)
 	if n := c.freshPerIteration("C17.R5", "core/mapping"); n < 2 {
 		c.R.Undecided("C17.R5", "core/mapping#fresh", "per-iteration stores of reflect.New targets are recognised", fmt.Sprintf("%d found", n))
 	}
